@@ -21,7 +21,16 @@ impl BananaShower {
             let mut count = 0;
 
             while time <= end_time {
-                time += spacing;
+                let next = time + spacing;
+
+                // For times beyond 2^24 the spacing can be smaller than the
+                // distance between two adjacent f32 values in which case
+                // `time` would never advance.
+                if next <= time {
+                    break;
+                }
+
+                time = next;
                 count += 1;
             }
 
